@@ -441,7 +441,11 @@ fn cyclic(w: &mut dyn Write, r: &mut Rng, len: usize, thorough: bool) -> usize {
                 let res = cyclic_step(&cy, Some(&p), initial, claimed);
                 let (ok, what) = match res {
                     Err(e) => (true, format!("rejected:{}", sh(&e))),
-                    Ok(p2) => { let c = check_vd(&cy, &p2, &vd); (false, format!("proved check={c} verify={}", verdict(&cy.data, p2))) }
+                    // a chain that claims the foreign data consistently can be provable when no FRI query of the inner
+                    // proof opens under the altered cap entry (the in-circuit verifier never reads that entry); the
+                    // property then rests on the out-of-circuit check, which must reject it.  Claiming the real data
+                    // over a proof that carries the foreign data must always be unprovable.
+                    Ok(p2) => { let c = check_vd(&cy, &p2, &vd); (tag == "foreign" && c == "err", format!("proved check={c} verify={}", verdict(&cy.data, p2))) }
                 };
                 writeln!(w, "c20 cyclic foreign-vd-{tagw}-continue-{tag} = {} # exp=0 {}", ok as u8, what).unwrap();
                 n += 1;
